@@ -194,10 +194,7 @@ func atomsOf(s *Sym, pos bool) []*Atom {
 				return nil
 			}
 		}
-		intLike := x.Typ != nil && isIntType(x.Typ) || y.Typ != nil && isIntType(y.Typ)
-		if x.K == KConst && x.C != nil && x.C.Kind() == constant.Int || y.K == KConst && y.C != nil && y.C.Kind() == constant.Int {
-			intLike = true
-		}
+		intLike := looksInt(x) || looksInt(y)
 		if intLike {
 			d := newLin() // x - y
 			linAdd(d, x, 1)
@@ -617,3 +614,33 @@ func isKey(key string) func(*Sym) bool {
 func anySym(*Sym) bool { return true }
 
 var _ = token.ADD
+
+
+// looksInt: the symbol denotes an integer (by type or by construction).
+func looksInt(s *Sym) bool {
+	if s == nil {
+		return false
+	}
+	if s.Typ != nil && isIntType(s.Typ) {
+		return true
+	}
+	switch s.K {
+	case KConst:
+		return s.C != nil && s.C.Kind() == constant.Int
+	case KBin:
+		switch s.Name {
+		case "+", "-", "*", "/", "%":
+			return true
+		}
+	case KBuiltin:
+		switch s.Name {
+		case "len", "cap":
+			return true
+		case "min", "max":
+			return len(s.Args) > 0 && looksInt(s.Args[0])
+		}
+	case KNeg:
+		return true
+	}
+	return false
+}
